@@ -1,3 +1,4 @@
+import MiniconfVerif.Lemmas.GenTieText
 import MiniconfVerif.Lemmas.Factor
 import MiniconfVerif.Lemmas.TextKeys
 import MiniconfVerif.Lemmas.Chain
@@ -145,5 +146,18 @@ theorem jsonpath_text_roundtrip {σ : Type} (cb : σ → CbArg → Option σ) (s
 def ex : Schema := .node (.named ["foo", "bar"]) [.leaf, .array 3 .leaf]
 example : (ex.transcode (.chain (.list [.str "bar".toList]) (.list [.int 2])) (.path '/' [] 100)).1 = .leaf 2 := by
   decide +kernel
+
+
+/-! ### Tie to the translated source (`Gen/Text.lean`, regenerated from key.rs on every run) -/
+open MiniconfVerif.Gen MiniconfVerif.Gen.Core MiniconfVerif.GenTie in
+/-- `<str as Key>::find` and `<integer as Key>::find` **as translated from key.rs** are the model's
+`Key.find`: names are compared exactly, numerals are parsed by `usize::from_str` and range-checked against the
+sibling count, integers of every width are converted with `try_into` and range-checked. -/
+theorem source_key_find_is_model (lk : Lookup) :
+    (∀ s : String, exceptOfGen (Text.strFind s (lookupToGen lk)) = Key.find lk (.str s.toList)) ∧
+    (0 < lk.len → ∀ v : Int, Text.intFind v (lookupToGen lk) = .val (match Key.find lk (.int v) with
+      | .ok i => .ok i
+      | .error _ => .error (.NotFound 1))) :=
+  ⟨fun s => strFind_tie s lk, fun h v => intFind_tie v lk h⟩
 
 end MiniconfVerif.C04
